@@ -114,6 +114,48 @@ pub enum TplUnit {
 "#,
         &[("TplOpaque", r#"{"firstField":[1,2],"secondField":3}"#), ("TplOpaque", r#"{}"#), ("TplUnit", r#""first""#), ("TplUnit", r#""2nd""#)],
     ),
+    // attributes applied through cfg_attr (predicates that hold without any feature, some of them mentioning the word
+    // typeshare): they belong to serde / the compiler, the macro must leave them alone
+    (
+        r#"#[typeshare]
+#[derive(Serialize, Deserialize, Dump)]
+#[cfg_attr(all(not(feature = "nope"), not(feature = "no_typeshare")), serde(rename_all = "camelCase"))]
+pub struct TplCfgAttr {
+    #[cfg_attr(all(not(feature = "wasm_off"), not(feature = "typeshare_off")), serde(rename = "accountId"))]
+    pub account_id: u32,
+    #[cfg_attr(not(feature = "typeshare_off"), serde(rename = "simple-predicate"))]
+    pub second_one: u8,
+    #[cfg_attr(any(feature = "never", not(feature = "never")), serde(skip_serializing_if = "Option::is_none", default))]
+    #[typeshare(skip)]
+    pub maybe_there: Option<u8>,
+    #[cfg_attr(feature = "never", serde(rename = "not-applied"))]
+    pub plain_name: bool,
+}
+
+#[typeshare]
+#[derive(Serialize, Deserialize, Dump)]
+#[serde(tag = "kind", content = "body")]
+pub enum TplCfgAttrEnum {
+    #[cfg_attr(all(not(feature = "a"), not(feature = "typeshare")), serde(rename = "renamed-variant"))]
+    First,
+    #[typeshare(skip)]
+    #[cfg_attr(not(feature = "a"), serde(rename = "second"))]
+    Second(u8),
+    Third {
+        #[cfg_attr(all(not(feature = "b"), not(feature = "x_typeshare_y")), serde(rename = "innerKey"))]
+        #[typeshare(typescript(readonly))]
+        inner_key: String,
+    },
+}
+"#,
+        &[
+            ("TplCfgAttr", r#"{"accountId":7,"simple-predicate":1,"maybeThere":2,"plainName":true}"#),
+            ("TplCfgAttr", r#"{"accountId":7,"simple-predicate":1,"plainName":false}"#),
+            ("TplCfgAttrEnum", r#"{"kind":"renamed-variant"}"#),
+            ("TplCfgAttrEnum", r#"{"kind":"second","body":3}"#),
+            ("TplCfgAttrEnum", r#"{"kind":"Third","body":{"innerKey":"v"}}"#),
+        ],
+    ),
 ];
 
 /// remove every `#[typeshare ...]` / `#[typeshare::typeshare]` attribute from source text (bracket matching)
@@ -349,7 +391,8 @@ fn module_runner(idx: usize, t: &Twin) -> String {
     match t.template % TEMPLATES.len() {
         0 => s.push_str("    crate::dump_check(m, \"TplTuple\", a::DUMP_TplTuple, b::DUMP_TplTuple);\n    crate::dump_check(m, \"TplEnum\", a::DUMP_TplEnum, b::DUMP_TplEnum);\n"),
         1 => s.push_str("    crate::dump_check(m, \"TplGen\", a::DUMP_TplGen, b::DUMP_TplGen);\n    crate::dump_check(m, \"TplUnion\", a::DUMP_TplUnion, b::DUMP_TplUnion);\n    crate::dump_check(m, \"TplCfg\", a::DUMP_TplCfg, b::DUMP_TplCfg);\n    crate::layout_check(m, \"TplUnion\", std::mem::size_of::<a::TplUnion>(), std::mem::align_of::<a::TplUnion>(), std::mem::size_of::<b::TplUnion>(), std::mem::align_of::<b::TplUnion>());\n    if a::TPL_CONST != b::TPL_CONST { println!(\"RESULT {m} TPL_CONST const-differs\"); }\n"),
-        _ => s.push_str("    crate::dump_check(m, \"TplOpaque\", a::DUMP_TplOpaque, b::DUMP_TplOpaque);\n    crate::dump_check(m, \"TplUnit\", a::DUMP_TplUnit, b::DUMP_TplUnit);\n"),
+        2 => s.push_str("    crate::dump_check(m, \"TplOpaque\", a::DUMP_TplOpaque, b::DUMP_TplOpaque);\n    crate::dump_check(m, \"TplUnit\", a::DUMP_TplUnit, b::DUMP_TplUnit);\n"),
+        _ => s.push_str("    crate::dump_check(m, \"TplCfgAttr\", a::DUMP_TplCfgAttr, b::DUMP_TplCfgAttr);\n    crate::dump_check(m, \"TplCfgAttrEnum\", a::DUMP_TplCfgAttrEnum, b::DUMP_TplCfgAttrEnum);\n"),
     }
     s.push_str("    println!(\"DONE {m}\");\n}\n");
     s
